@@ -63,8 +63,8 @@ impl Prog {
 #[derive(Debug, Clone)]
 pub struct RunOut {
     pub outcomes: Vec<RecOutcome>,
-    /// (record index, port, text) in program order; record index usize::MAX outside records
-    pub writes: Vec<(usize, usize, String)>,
+    /// (record index, port, text, guarded) in program order; record index usize::MAX outside records
+    pub writes: Vec<(usize, usize, String, bool)>,
     /// port -> file name
     pub files: Vec<(usize, String, String)>,
     pub closed: Vec<usize>,
@@ -85,6 +85,7 @@ pub fn run_forms(forms: &[Node], records: &[Record]) -> Result<RunOut, String> {
     let (outcomes, device, threads, scans) = {
         let mut it = Interp::new(&mut host);
         it.records = records.to_vec();
+        it.continue_after_break = true;
         match it.run_forms(forms) {
             Ok(_) => {}
             Err(Ctl::Error(e)) => return Err(e),
